@@ -468,3 +468,27 @@ func runFsck(st *fstxn.FsState, o FsckOpts) *FsckRes {
 	res.StateHash = hashStr(fmt.Sprint(owned)) + "-" + hashStr(fmt.Sprint(treeHash))
 	return res
 }
+
+// diskFreeBlocks counts the free blocks according to the block bitmap on the
+// logical disk (read through the journal) - independent of the running
+// server's in-memory allocator.
+func diskFreeBlocks(st *fstxn.FsState) uint64 {
+	sup := st.Super
+	maxb := uint64(sup.MaxBnum())
+	var free uint64
+	for i := uint64(0); i < sup.NBlockBitmap; i++ {
+		b := st.Txn.Load(addr.MkAddr(uint64(sup.BitmapBlockStart())+i, 0), common.NBITBLOCK).Data
+		for j, x := range b {
+			base := i*common.NBITBLOCK + uint64(j)*8
+			if base >= maxb {
+				break
+			}
+			for k := uint64(0); k < 8 && base+k < maxb; k++ {
+				if x&(1<<k) == 0 {
+					free++
+				}
+			}
+		}
+	}
+	return free
+}
